@@ -598,7 +598,16 @@ fn random_run(rng: &mut Rng, prof: &Profile, sink: &mut Sink<QuantEngine>) {
                 let v = if rng.chance(0.8) { rng.uniform(1.0, 10.0) } else { rng.uniform(0.0, 1.0) } as f32;
                 t.push(Ev::Convert(v.to_bits()));
                 for _ in 0..rng.range(1, 4) {
-                    gen_edit(rng, &mut t);
+                    // one to three edits between two conversions of the same input; often the first one
+                    // forbids exactly the pitch class that is sounding
+                    if rng.chance(0.5) {
+                        if let Some(p) = t.exec().prev() {
+                            t.push(Ev::Forbid(vec![p % 12]));
+                        }
+                    }
+                    for _ in 0..rng.range(1, 3) {
+                        gen_edit(rng, &mut t);
+                    }
                     t.push(Ev::Convert(v.to_bits()));
                     if rng.chance(0.3) {
                         let w = v + rng.uniform(-0.01, 0.01) as f32;
